@@ -228,7 +228,7 @@ pub fn run(ctx: &Ctx) {
     ctx.generated(
         "machine-word-operands",
         "pair",
-        t.pick(150_000, 2_000_000),
+        t.pick(400_000, 2_000_000),
         "unscaled integers around 2^31, 2^32, 2^63, 2^64, 2^127, 2^128 (+- small, or anywhere in the binade) on either side, scale gaps 0..3 (mostly equal scales), both signs",
         || {
             fn word(which: u8, how: u8, r: u64) -> num_bigint::BigInt {
@@ -255,5 +255,5 @@ pub fn run(ctx: &Ctx) {
         check_pair,
     );
     let max_len = t.pick(400usize, 2000);
-    ctx.generated("random-pairs", "pair", t.pick(400_000, 10_000_000), "1..max digits, gaps 0..10^4 both directions, zero divisors, twins and exact multiples with either operand at the finer scale, one unit off a multiple, a = -b", move || pair_strategy(max_len), check_pair);
+    ctx.generated("random-pairs", "pair", t.pick(1_000_000, 10_000_000), "1..max digits, gaps 0..10^4 both directions, zero divisors, twins and exact multiples with either operand at the finer scale, one unit off a multiple, a = -b", move || pair_strategy(max_len), check_pair);
 }
